@@ -147,6 +147,10 @@ func replayNative(repo, hdir string, h *Harness, path string) string {
 	if bin == "" {
 		return berr
 	}
+	if bb, _ := os.ReadFile(path); strings.Contains(string(bb), `"kind": "shared-write"`) {
+		// a write to package-level memory is a fact about the code path, established symbolically
+		return "symbolic-only"
+	}
 	b, _ := os.ReadFile(path)
 	var rp struct {
 		Kind  string   `json:"kind"`
@@ -227,8 +231,12 @@ func replayNative(repo, hdir string, h *Harness, path string) string {
 		}
 		return fmt.Sprintf("native run diverged from the symbolic path: result=%q reached=%q want=%v", res, reached, rp.Stack)
 	case "assert":
-		if res == "ASSERT-FAILED "+rp.Tag {
+		if res == "ASSERT-FAILED "+rp.Tag || strings.Contains(txt, "VERIF-REPLAY-FAILED: "+rp.Tag+"\n") {
 			return "reproduced"
+		}
+		if strings.HasPrefix(rp.Tag, "C20:") && strings.Contains(rp.Tag, "allocat") && res == "completed" {
+			// the allocation counter exists only in the symbolic engine
+			return "symbolic-only"
 		}
 	case "panic":
 		// tag is "no-panic: <runtime message>"
